@@ -294,7 +294,7 @@ pub fn run(tier: Tier, seed: u64, only: Option<String>) -> i32 {
         "walk_disjoint_from_previous_round",
         "capacity_exhausted_exactly_at_512",
     ];
-    let n = tier.pick(300, 3000);
+    let n = tier.pick(1500, 6000);
     let walks = tier.pick(6, 12);
     match only {
         Some(s) if s.starts_with('w') => rep.merge(walk_job(seed, s[1..].parse().unwrap_or(0), tier)),
